@@ -82,7 +82,7 @@ CHECKS = {
             "while pending is followed by a poll, future and output each released exactly once.",
             "Memory of the task allocation itself is observed through drop counters (future, output), not through an allocator hook; "
             "loom explores the C11 model within the stated preemption bound.", "5/C13"),
-    "C14": ("simx+loomx", "exploration", S_TECH,
+    "C14": ("simx+loomx+shutx", "exploration", S_TECH,
             "Requestor and QuerySource with 0..3 (thorough 4) repliers over every vector of connection modes (plain, map, "
             "two filters) and both request parities under every pick order (every completion order): reply vector equals "
             "the expected one in connection order and is returned only after all repliers processed the request; port "
@@ -160,7 +160,7 @@ def main():
             "add_only": True,
         },
         "engines": [
-            {"name": "shutx", "path": "engines/shutx", "serves_properties": ["C02", "C03", "C04", "C05", "C06", "C07", "C08", "C12", "C19"],
+            {"name": "shutx", "path": "engines/shutx", "serves_properties": ["C02", "C03", "C04", "C05", "C06", "C07", "C08", "C12", "C14", "C19"],
              "kind_free_text": "mirror of /repo/nexosim/src compiled against shuttle 0.9.3 (engines/mirror/mirror.py rewrites import lines only); own preemption-bounded DFS scheduler; real MT executor, channel, Simulation"},
             {"name": "loomx", "path": "engines/loomx", "serves_properties": ["C05", "C12", "C13", "C14", "C15"],
              "kind_free_text": "mirror of /repo/nexosim/src compiled against loom 0.7.2; loom DPOR with preemption bounds on the real queue, task, seqlock cell, cached lock"},
